@@ -264,11 +264,41 @@ def judge (pred : String) (k : Nat) (args : List Term) (impl : Impl) : String :=
             | some c => s!"FAIL tuple {row c} of the relation matches the call but no answer covers it"
             | none => "ok"
 
+/-- the side condition of the theorems about unification with non-ground data (`UnifyDefined`,
+    `SldDefined`): no unification of the model's run ran out of fuel -/
+def definedOk (pred : String) (k : Nat) (args : List Term) : Bool :=
+  match pred, args with
+  | "member", [x, l] =>
+    sldDefinedB ((bootClauses "member" 2).map clauseParts) (k + x.size + l.size + 4) [Term.a2 "member" x l] args
+  | "select", [e, l, r] =>
+    sldDefinedB ((bootClauses "select" 3).map clauseParts) (k + e.size + l.size + r.size + 4)
+      [Term.a3 "select" e l r] args
+  | "append", [xs, ys, zs] =>
+    if appendFast xs then unifyDefinedB zs (Term.list xs.spine.1 ys)
+    else sldDefinedB (appendClauses.map clauseParts) (k + xs.size + ys.size + zs.size + 4)
+      [Term.a3 "append" xs ys zs] args
+  | "arg", [.int n, .app _ as, a] =>
+    match as.toList[(n - 1).toNat]? with
+    | some e => unifyDefinedB a e
+    | none => true
+  | "univ", [.app f as, l] => unifyDefinedB l (Term.list (.atom f :: as.toList))
+  | "nth0", [n, l, e] =>
+    (List.range l.spine.1.length).all fun i => match l.spine.1[i]? with
+      | some x => unifyDefinedB (tuple [n, e]) (tuple [.int (Int.ofNat i), x]) && unifyDefinedB e x
+      | none => true
+  | "nth1", [n, l, e] =>
+    (List.range l.spine.1.length).all fun i => match l.spine.1[i]? with
+      | some x => unifyDefinedB (tuple [n, e]) (tuple [.int (1 + Int.ofNat i), x]) && unifyDefinedB e x
+      | none => true
+  | _, _ => true
+
 def handler : Handler := fun payload impl =>
   match parseCase payload with
   | some (pred, k, args) =>
     match call pred k args with
-    | some r => (showResult k r, judge pred k args (parseImpl impl))
+    | some r =>
+      if definedOk pred k args then (showResult k r, judge pred k args (parseImpl impl))
+      else (showResult k r, "FAIL the model's unifier ran out of fuel on this case (outside the verified domain)")
     | none => ("BAD-CASE", "-")
   | none => ("BAD-CASE", "-")
 
